@@ -10,6 +10,7 @@ import (
 	"fmt"
 	"math"
 	"math/rand"
+	"runtime"
 	"sync"
 
 	"github.com/Trisia/randomness"
@@ -414,6 +415,10 @@ func statsReplay(job []byte, out *Out) error {
 	}
 	// call histories: the same calls once more in the opposite order within this process; a result that depends on what
 	// was called before (a cache, a pool, a lazily built table) differs bit-wise from the first pass
+	// ... and with a different number of processors visible to the runtime (seven instead of all): a result must not depend
+	// on how many goroutines a parallelised implementation decides to start
+	prevProcs := runtime.GOMAXPROCS(7)
+	defer runtime.GOMAXPROCS(prevProcs)
 	for vi := len(j.Vectors) - 1; vi >= 0; vi-- {
 		v := &j.Vectors[vi]
 		if len(j.Vectors) > 1 && len(v.Bits) > 400000 {
@@ -433,6 +438,7 @@ func statsReplay(job []byte, out *Out) error {
 			}
 		}
 	}
+	runtime.GOMAXPROCS(prevProcs)
 	// overlapping calls: the same calls again from sixteen goroutines at once (as the parallel workflows and the batch
 	// detector call them); a result that depends on what other goroutines are doing differs bit-wise from the first pass
 	type unit struct {
@@ -664,8 +670,16 @@ func statsTrace(job []byte, out *Out) error {
 	}
 	// call histories (as in stats-replay): the inputs of this process once more in the opposite order, so every length is
 	// also evaluated after a longer and after a shorter one; a result that depends on earlier calls differs bit-wise
-	if len(j.Inputs) > 1 {
+	{
+		// (with three, then seven processors visible to the runtime instead of all of them)
+		prev := runtime.GOMAXPROCS(3)
+		defer runtime.GOMAXPROCS(prev)
 		for ii := len(j.Inputs) - 1; ii >= 0; ii-- {
+			if ii%2 == 1 {
+				runtime.GOMAXPROCS(7)
+			} else {
+				runtime.GOMAXPROCS(3)
+			}
 			in := j.Inputs[ii]
 			bits := genBits(in.Mode, in.N, in.Seed)
 			for ci_ := len(in.Calls) - 1; ci_ >= 0; ci_-- {
